@@ -86,16 +86,17 @@ pub fn gen_value(rng: &mut Rng, ty: &str, pool: &Pool) -> Value {
             1 => u128::MAX.to_string(),
             _ => (rng.next() as u128 * 3).to_string(),
         }),
-        // serde-json-wasm writes 128 bit integers as strings
+        // 128 bit integers travel as bare JSON numbers (the values drawn here stay within what
+        // serde_json's own number type holds)
         "u128" => json!(match rng.below(3) {
-            0 => "0".to_string(),
-            1 => u128::MAX.to_string(),
-            _ => (rng.next() as u128 * 77).to_string(),
+            0 => 0u64,
+            1 => u64::MAX,
+            _ => rng.next() >> rng.below(60),
         }),
         "i128" => json!(match rng.below(3) {
-            0 => i128::MIN.to_string(),
-            1 => "-1".to_string(),
-            _ => (rng.next() as i128).to_string(),
+            0 => i64::MIN,
+            1 => -1,
+            _ => rng.next() as i64 >> rng.below(60),
         }),
         "i64" => json!(match rng.below(4) {
             0 => i64::MIN,
@@ -194,6 +195,28 @@ pub fn doc_for(h: &HandlerSpec, args: &Map<String, Value>) -> Value {
             Value::Object(m)
         }
     }
+}
+
+/// The document for (handler, args) with some members left out: an `Option` argument that is
+/// `None` may simply be omitted, and so may any argument with a forwarded serde default -- in
+/// which case the handler has to see that default (`args` is updated to what must arrive).
+pub fn doc_omitting(h: &HandlerSpec, args: &mut Map<String, Value>, rng: &mut Rng) -> Value {
+    let mut body = args.clone();
+    for a in h.args {
+        if a.ty == "Script" {
+            continue;
+        }
+        let is_null = args.get(a.name).map(|v| v.is_null()).unwrap_or(false);
+        if a.default.is_empty() {
+            if is_null && rng.chance(1, 2) {
+                body.remove(a.name);
+            }
+        } else if rng.chance(1, 3) {
+            body.remove(a.name);
+            args.insert(a.name.to_string(), serde_json::from_str(a.default).unwrap_or(Value::Null));
+        }
+    }
+    doc_for(h, &body)
 }
 
 pub fn handler<'a>(spec: &'a ContractSpec, kind: Kind, part: &str, f: &str) -> Option<&'a HandlerSpec> {
